@@ -5,7 +5,7 @@ From Coq Require Import ZArith List Bool Reals PrimFloat.
 From FT.lib Require Import Num Arr ArrLemmas NumArr.
 From FT.gen Require Import Common Interp2d Interp3d Vinterp2d Vinterp3d Fteik2d Fteik3d Ray2d Ray3d.
 From FT.proofs Require Import NumFLaws SafetyTools Safety2d SafetyInterp Ray2dProofs.
-From FT.proofs Require Safety3d Ray3dProofs RaySafety2d RaySafety3d SafetySolveTools SafetySolve2d SafetySolve3d.
+From FT.proofs Require Safety3d Ray3dProofs RaySafety2d RaySafety3d SafetySolveTools SafetySolve2d SafetySolve3d TruncLawsF.
 Import ListNotations.
 Open Scope Z_scope.
 
@@ -414,12 +414,30 @@ Theorem C12_trunc_div_law_binary64 :
   SafetySolveTools.TruncDivLaw float.
 Proof. exact @SafetySolveTools.TruncDivLawF. Qed.
 
-(* for binary64 the second law (2D on-node branch tt[int(zsa), int(xsa)] = 0) is false without a bound on the number of cells: n = 2^53+3, d = 1, z = 2^53+4 passes the domain test and indexes node n+1 (witness by vm_compute; such grids do not fit in memory; the law for n <= 2^51 is not proved = the one open obligation of the 2D float statement) *)
+(* for binary64 the second law (2D on-node branch tt[int(zsa), int(xsa)] = 0) is false without a bound on the number of cells: n = 2^53+3, d = 1, z = 2^53+4 passes the domain test and indexes node n+1 (witness by vm_compute; such grids do not fit in memory) *)
 Theorem C12_on_node_branch_needs_bounded_grid :
   exists (z d : float) (n : Z),
          nleb (nofZ 0) z = true /\
          nltb (nofZ 0) d = true /\ nleb z (nmul d (nofZ n)) = true /\ n < ntrunc (nround (ndiv z d)).
 Proof. exact @SafetySolveTools.trunc_round_div_range_F_needs_bound. Qed.
+
+(* binary64: with 1 <= n <= 2^50 cells the rounded quotient of an in-domain coordinate is a node index - all floats z, d (NaN, infinities, signed zeros, subnormal d, overflow of d*n, underflow of z/d), via Flocq *)
+Theorem C12_on_node_law_binary64 :
+  forall (z d : float) (n : Z),
+       1 <= n <= 2 ^ 50 ->
+       (f_ofZ 0 <=? z)%float = true ->
+       (f_ofZ 0 <? d)%float = true -> (z <=? d * f_ofZ n)%float = true -> 0 <= f_trunc (f_round (z / d)) <= n.
+Proof. exact @TruncLawsF.trunc_round_div_range_F. Qed.
+
+(* hence the whole 2D solver performs only in-range accesses on binary64, for every model with 1..2^50 cells per axis, positive spacings, every source (NaN included), nsweep and flag *)
+Theorem C12_solve2d_ok_binary64 :
+  forall (slow : arr float) (dz dx zsrc xsrc : float) (nsweep : Z) (grad : bool) (nz nx : Z),
+       shape slow = [nz; nx] ->
+       1 <= nz <= 2 ^ 50 ->
+       1 <= nx <= 2 ^ 50 ->
+       (0 <? dz)%float = true ->
+       (0 <? dx)%float = true -> fteik2d_ok true false slow dz dx zsrc xsrc nsweep grad = true.
+Proof. exact @TruncLawsF.fteik2d_ok_true_F. Qed.
 
 (* 3D gradient bookkeeping invariant through every pass *)
 Theorem C12_sign_invariant_3d :
@@ -471,5 +489,7 @@ Print Assumptions C12_solve3d_ok.
 Print Assumptions C12_solve3d_ok_binary64.
 Print Assumptions C12_trunc_div_law_binary64.
 Print Assumptions C12_on_node_branch_needs_bounded_grid.
+Print Assumptions C12_on_node_law_binary64.
+Print Assumptions C12_solve2d_ok_binary64.
 Print Assumptions C12_sign_invariant_3d.
 Print Assumptions C12_gradient_assembly_ok_3d.
